@@ -61,7 +61,9 @@ class C05(Prop):
     lean_modules = ["PkgProofs.Props.C05"]
     theorems = [
         "C05.contains_is_all", "C05.contains_perm_invariant", "C05.empty_matches_all", "C05.ofString_empty",
-        "C05.clause_order_dup_invariant", "C05.matchAlike_of_same_spelling", "C05.matchAlike_arbitrary",
+        "C05.clause_order_dup_invariant", "C05.matchAlike_all", "SS.equal_specs_match_alike",
+        "SS.equal_specs_same_prereleases", "SS.key_cases", "SS.canonical_isOk", "SS.scan_no_star",
+        "C05.ofSpecs_total", "C05.ofString_total",
         "C05.and_is_inter", "C05.and_override_table", "C05.and_error_iff", "C05.and_comm", "C05.and_comm_ext",
         "C05.and_assoc", "C05.and_eq_parse_concat", "C05.eq_iff", "C05.eq_hash", "C05.eq_refl", "C05.eq_symm",
         "C05.eq_trans", "C05.ofString_wf", "C05.and_wf", "C05.str_perm_invariant", "C05.str_parses_back",
